@@ -93,7 +93,8 @@ def build_cc(spec):
         for n in nodes:
             h.add_node(n)
         mode = spec.get("build", "add-rev" if spec.get("reverse") else "add")
-        present = build_from_bits(cands, bits, h.add_edge, h.remove_edge, mode)
+        present = build_from_bits(cands, bits, h.add_edge, h.remove_edge, mode,
+                                  shrink=lambda n: h.remove_node(n, keep_edges=True))
         kw = {}
         if fmode != "none":
             f = S.int("f")
@@ -257,7 +258,7 @@ def obligations(tier, seed):
         for fixed in itertools.product([0, 1], repeat=nfix):
             for fmode in ("none", "order", "size"):
                 out.append({"family": "cc", "cands": cname, "fixed": list(fixed), "fmode": fmode, "reverse": rev,
-                            "build": ("add", "remove", "readd")[(sum(fixed) + len(fmode)) % 3]})
+                            "build": ("add", "remove", "readd", "shrink")[(sum(fixed) + len(fmode)) % 4]})
     for cname in ("n1", "n2"):
         for fmode in ("none", "order", "size"):
             out.append({"family": "cc", "cands": cname, "fixed": [], "fmode": fmode, "reverse": False})
@@ -280,7 +281,9 @@ META = {
     "bounds": {
         "quick": "one- and two-node hypergraphs (all sub-families of their singletons / pair); Hypergraph on nodes {0,1,2,3} + an isolated node: all 2^10 sub-families of the 10 pairs/triples (split "
                  "16 ways by the first four presence bits), filter none / order=f / size=f with f an unbounded symbolic "
-                 "integer; degree of Directed/Temporal/Multiplex containers over 8 presence bits each",
+                 "integer; degree of Directed/Temporal/Multiplex containers over 8 presence bits each; the Hypergraph is built in "
+                 "one of four ways per obligation (insert, insert all then remove the absent ones, remove and re-insert, "
+                 "insert a superset and shrink it onto an existing hyperedge with remove_node(keep_edges=True))",
         "thorough": "adds: 14+1 candidates incl. singletons and the 4-set (2^15, reversed insertion order), a 12-candidate "
                     "mixed family on 5 nodes, string labels",
     },
